@@ -35,6 +35,8 @@ def check(run):
            'connections', 2)
     from .common import shared_state
     shared_state(R, 'C04.shared')
+    from .common import sized_truth
+    sized_truth(R, 'C04.shared')
     R.rule('C04.wire', 'header fields are extracted from the two header bytes with the RFC 6455 bit layout and '
                        'passed to the same-named frame constructor slots', 8)
     R.rule('C04.table', 'each violation class has a live check site (operands wire-derived when it runs)', 10)
